@@ -2,6 +2,7 @@ import LP.Props.C14
 import LP.Props.C14Eval
 import LP.Props.C14PowMod
 import LP.Props.C14RootCount
+import LP.Props.C14RootCountModel
 #print axioms LP.ounion_mem
 #print axioms LP.ounion_sorted
 #print axioms LP.ounion_flags
@@ -24,3 +25,5 @@ import LP.Props.C14RootCount
 #print axioms LP.FPoly.C14_eval_zero_iff
 #print axioms LP.FPoly.fpPowMod_spec
 #print axioms LP.roots_count_gcd
+#print axioms LP.FPoly.xgcd_gcd
+#print axioms LP.FPoly.rootCountFp_spec
